@@ -4,6 +4,7 @@
 import HierArc.Model.Gof
 import HierArc.Proofs.Gauss
 import HierArc.Props.C03
+import HierArc.Props.C12
 import HierArc.Gen.Tables
 
 namespace HierArc.C14
@@ -109,7 +110,27 @@ theorem ddtGaussian_zero_at_match (mean sigma : ℝ) : ddtGaussian mean sigma me
 /-- **χ² = 0 at a perfect match** (un-normalised Gaussian types): a sum of vanishing terms -/
 theorem chi2_zero_at_match (n : ℕ) : reducedChi2 (0 : ℝ) n = 0 := by simp [reducedChi2]
 
+/-! ### the reported Ddt measurement of the sample-based types -/
+
+/-- `ddt_measurement()` of `DdtHist`, `DdtHistKDE`, `DdtHistKin` (model `Hist.measurement`, run against all three
+    classes by the C14 harness, weighted samples included) is the **weighted** data mean and the **weighted** data
+    standard deviation — for unit weights the plain sample mean and population standard deviation -/
+theorem hist_ddt_measurement (s : Hist.Samples ℝ) :
+    Hist.measurement s =
+      ((s.map (fun p => p.2 * p.1)).sum / (s.map (·.2)).sum,
+       Real.sqrt ((s.map (fun p => p.2 * (p.1 - (s.map (fun p => p.2 * p.1)).sum / (s.map (·.2)).sum) ^ 2)).sum
+          / (s.map (·.2)).sum)) :=
+  Hist.measurement_is_weighted_moments s
+
+/-- … and it does not depend on the normalisation of the weights (importance weights are only defined up to a
+    factor) nor on the order of the samples -/
+theorem hist_ddt_measurement_scale_perm {c : ℝ} (hc : 0 < c) {s s' : Hist.Samples ℝ} (h : s.Perm s') :
+    Hist.measurement (Hist.scaleW c s) = Hist.measurement s' := by
+  rw [Hist.weight_scale_invariant_measurement hc, Hist.perm_invariant_measurement h]
+
 /-! ### non-vacuity -/
 example : (0 : ℕ) < 5 := by norm_num
+example : Hist.measurement ([(1.0, 1.0), (3.0, 3.0)] : Hist.Samples ℝ) = (2.5, Real.sqrt 0.75) := by
+  rw [hist_ddt_measurement]; norm_num
 
 end HierArc.C14
